@@ -128,8 +128,10 @@ pub fn spec_frame(bytes: &[u8]) -> Option<(i32, Vec<(u8, String)>)> {
             return Some(spec_frame_text(&text));
         }
     }
-    let text = std::str::from_utf8(bytes).ok()?;
-    Some(spec_frame_text(text))
+    // bytes that are not valid UTF-8 are replaced by U+FFFD (the reader does this line by line; the replacement is compositional at
+    // line feeds — Props/C10: utf8Lossy_append_lf — so doing it once for the whole text is the same reading)
+    let text = String::from_utf8_lossy(bytes);
+    Some(spec_frame_text(&text))
 }
 
 /// the same transcription on a text (no BOM handling at all).
